@@ -496,8 +496,9 @@ DESCR:
 func postprocessParsed(lookup objLookup) {
 	// In access-list, replace "object-group NAME" by "$REF" in cmd.parsed
 	// and add "NAME" to cmd.ref .
-	for _, l := range lookup["access-list"] {
-		for _, c := range l {
+	acls := lookup["access-list"]
+	for _, name := range slices.Sorted(maps.Keys(acls)) {
+		for _, c := range acls[name] {
 			postprocessASAACL(c)
 			// access-list may reference up to five object-groups.
 			c.typ.ref = []string{
@@ -506,8 +507,9 @@ func postprocessParsed(lookup objLookup) {
 			}
 		}
 	}
-	for _, l := range lookup["ip access-list extended"] {
-		for _, c := range l[0].sub {
+	acls = lookup["ip access-list extended"]
+	for _, name := range slices.Sorted(maps.Keys(acls)) {
+		for _, c := range acls[name][0].sub {
 			postprocessIOSACL(c)
 			// Register prefix of up to five referenced object-groups,
 			// such that unknown object-group is reported.
